@@ -28,6 +28,7 @@ class Session:
         self.te = threading.Thread(target=self._err_reader, daemon=True)
         self.te.start()
         self.alive = True
+        self.stalled = False
         if init:
             params = {"processId": None, "rootUri": None, "capabilities": {}}
             if workspace:
@@ -71,16 +72,30 @@ class Session:
         except Exception:
             self.q.put(None)
 
-    def send(self, msg):
+    def _write(self, data, done):
+        try:
+            self.p.stdin.write(data)
+            self.p.stdin.flush()
+            done.append(True)
+        except (BrokenPipeError, OSError, ValueError):
+            done.append(False)
+
+    def send(self, msg, timeout=30.0):
+        """Writes one framed message.  A server that has stopped reading (a hang) fills the pipe and would block the
+        writer for ever: the write is given a time limit; when it is not through by then the session counts as dead."""
         self.trace.append(("send", msg))
         data = json.dumps(msg).encode()
-        try:
-            self.p.stdin.write(b"Content-Length: %d\r\n\r\n" % len(data) + data)
-            self.p.stdin.flush()
-            return True
-        except (BrokenPipeError, OSError):
-            self.alive = False
+        if not self.alive:
             return False
+        done = []
+        t = threading.Thread(target=self._write, args=(b"Content-Length: %d\r\n\r\n" % len(data) + data, done), daemon=True)
+        t.start()
+        t.join(timeout)
+        if t.is_alive() or not done or not done[0]:
+            self.alive = False
+            self.stalled = t.is_alive()
+            return False
+        return True
 
     def request(self, method, params, rid=None):
         if rid is None:
